@@ -3,18 +3,20 @@ PROP = {
     "coq_targets": ["Properties/C01.vo", "Extract/C01Extract.vo"],
     "properties_file": "Properties/C01.v",
     "theorems": ["C01_get", "C01_lpm", "C01_getLonger", "C01_dump", "C01_count",
-                 "C01_spec_is_a_map", "C01_refines"],
+                 "C01_spec_is_a_map", "C01_refines", "C01_noncanonical_refuted"],
     "allowed_axioms": [],
     "harness": "c01",
     "modelrun": {"name": "c01", "extracted": ["c01_model"], "driver": "ocaml/c01/c01_run.ml"},
-    "tiers": {"quick": {"cases": 1500}, "thorough": {"cases": 40000}},
+    "tiers": {"quick": {"cases": 3000}, "thorough": {"cases": 40000}},
     "search_cases": 6000,
     "rule": "histories of 5-40 add/remove/replace/removePfx (RoutingTable) or add/remove/replace-one (LocRIB, with and "
             "without a registered client) ops over a pool of 6-10 IPv4 or IPv6 prefixes that share a long stem "
             "(stem lengths just below /8,/16,/24,/32,/64,/96,/128; /0, siblings, host routes), with Get/LPM/GetLonger "
             "queries of pool prefixes interleaved and Dump+count; a case is non-trivial when some operation removed a "
             "stored prefix (leaving a dummy node) and some query asked for a prefix that is not stored while prefixes "
-            "covering it or inside it are; distinct = distinct token sequences",
+            "covering it or inside it are; distinct = distinct token sequences. About 8% of the cases (T=rn) feed the "
+            "RoutingTable with IPv4 prefixes whose host bits are set and are compared with the raw model only "
+            "(never counted as non-trivial, no map oracle: the property is about prefixes)",
     "trusted_base": [
         "extraction (ExtrOcamlBasic only) + ocaml/common/conv.ml + ocaml/c01/c01_run.ml (token parser, set printer)",
         "Go harness harness/cmd/c01: generator, conversion bit string <-> net.Prefix by explicit shifts (no net.Prefix "
